@@ -186,7 +186,7 @@ func builtinJSONStringify(call FunctionCall) Value {
 		}
 	}
 	holder := call.runtime.newObject()
-	holder.put("", call.Argument(0), false)
+	holder.defineProperty("", call.Argument(0), 0o111, false)
 	value, exists := builtinJSONStringifyWalk(ctx, "", holder)
 	if !exists {
 		return Value{}
